@@ -74,6 +74,10 @@ pub const R_NET: &[&str] = &[
     "@@ads$important",
     "||ads.net^$csp=d1,tag=t1",
     "||ads.net^$csp=d1,tag=t2",
+    // a floating pattern behind a hostname anchor: its first token may be the tail of a URL token
+    "||tracker.co.uk*ads/foo",
+    "||tracker.co.uk*ads^",
+    "||example.com*foo/bar|",
 ];
 
 /// Hosts-format lines (added through a second `add_filters` call with `FilterFormat::Hosts`).
